@@ -7,6 +7,11 @@ props = [json.loads(l) for l in open(os.path.join(V, "properties.jsonl"))]
 
 # property id -> (category, technique, level text, level note) ; absent = not claimed (reason in NOT_APPLICABLE)
 CLAIMS = {
+ "C16": ("exploration",
+         "runtime monitoring: print/read-back round trip on the real printer and reader over random value trees; structural + exactness oracle, format rules, injectivity over the run",
+         "random value trees built by evaluation (the C09 operand grid, results of arithmetic, literals and computed values of every binary32 class, characters, symbols, proper/improper lists, vectors) are printed by the code display uses and the text is read back as a quoted datum by the real reader; the read-back value must be structurally equal with the same exactness (reals bit-equal), the text must use single spaces and a dotted tail exactly for improper lists, and over the whole run equal texts must come from equal values.",
+         "values containing strings, non-finite reals or symbols needing bars are skipped (counted)"),
+
  "C06": ("exploration",
          "runtime monitoring: independent R7RS tokenizer/reader as oracle; exhaustive short strings through the real Lexer (token boundaries + data), through the real reader, and random datum trees under random layouts (metamorphic)",
          "every string up to length 4 (5 thorough) over a 16-character alphabet is tokenized by the real Lexer and by an independent tokenizer: token boundaries must coincide (tokens split only at delimiters) and supported tokens must carry the right datum; the strings that denote exactly one datum are also read through eval and compared, malformed dotted lists must be rejected; random datum trees are rendered three ways with random whitespace/comments and must read back as the tree. The missing delimiter after #t/#f/#\\c is a listed known finding (pinned by the repository's own tests).",
